@@ -32,7 +32,7 @@ func init() {
 			"the loop's success return is unreachable once the 'equal' edge of that comparison is removed – i.e. a mismatch of that single field always rejects the candidate " +
 			"(conditions joined with && instead of || let a lookalike with one matching field through).",
 		Props: []string{"C05", "C19"},
-		Floor: 2,
+		Floor: 1,
 		Run:   ruleScan3,
 	})
 	register(&Rule{
